@@ -18,7 +18,7 @@ import (
 func init() {
 	register(&propDef{
 		id: "C09", level: "proof", perCfg: true,
-		explain: "Proof, by abstract interpretation of package idl's SSA (no input is run), of the clauses that make idl.New total, for ALL byte strings: the parser's cursor (found by shape: the struct whose string member is indexed by its int member; primitives recognised by shape: read-and-advance returning -1 at end of input, step-back) is tracked with relational bounds - ov = upper bound of position-len(input), net advance since entry, distances to every snapshot/read/token, the peek set, intervals of read results - joined at merges and widened at loops, with assume/guarantee summaries per reader (success returns guarantee cursor within the input and not before entry). Obligations, enumerated from the SSA and each discharged or the check fails: O1 every slice of the input has 0 <= lo <= hi <= len, every direct store to the position is covered by the anchored-regexp lemma; O2 every reader is entered with the cursor within the input, every success return leaves it there, every step-back stays at or after the entry position, on every back edge the cursor is within a bounded distance of the end; O3 every loop iteration and every recursion cycle consumes at least one byte (so iterations and recursion depth are bounded by len(input)+K); Q2 a possibly failed reader's result is tested before the cursor is used again (or the cursor is proved unchanged); O1 also covers a direct index input[i] in a reader (i must be a cursor snapshot known to be strictly below len(input), e.g. under `pos < len(input)`); O4 every other panic site of the package (indexes into tables, type assertions, explicit panics, divisions, regexp.MustCompile on constants which the checker compiles itself) is discharged.",
+		explain: "Proof, by abstract interpretation of package idl's SSA (no input is run), of the clauses that make idl.New total, for ALL byte strings: the parser's cursor (found by shape: the struct whose string member is indexed by its int member; primitives recognised by shape: read-and-advance returning -1 at end of input, step-back) is tracked with relational bounds - ov = upper bound of position-len(input), net advance since entry, distances to every snapshot/read/token, the peek set, intervals of read results - joined at merges and widened at loops, with assume/guarantee summaries per reader (success returns guarantee cursor within the input and not before entry). Obligations, enumerated from the SSA and each discharged or the check fails: O1 every slice of the input has 0 <= lo <= hi <= len, every direct store to the position is covered by the anchored-regexp lemma; O2 every reader is entered with the cursor within the input, every success return leaves it there, every step-back stays at or after the entry position, on every back edge the cursor is within a bounded distance of the end; O3 every loop iteration and every recursion cycle consumes at least one byte (so iterations and recursion depth are bounded by len(input)+K); Q2 a possibly failed reader's result is tested before the cursor is used again (or the cursor is proved unchanged); O1 also covers a direct index input[i] in a reader (i must be a cursor snapshot known to be strictly below len(input), e.g. under `pos < len(input)`); O4 every other panic site of the package (indexes into tables, type assertions, explicit panics, divisions, regexp.MustCompile on constants which the checker compiles itself) is discharged. O1 also verifies the primitives themselves on every path: read-and-advance adds exactly 1 to the position and returns -1 iff position >= len(input), otherwise int(input[position]) under position < len; step-back subtracts exactly 1. O1x cross-checks the compiler's bounds-check-elimination report where available. O4 also: nil-dereference census - a pointer result of a reader is dereferenced only where it is known non-nil (tested, or the reader's non-nil-when-ok summary).",
 		notDec:  "Memory exhaustion; stack depth beyond the stated 64 KiB input bound (depth <= input length by O3); panics or divergence inside regexp, bytes.Buffer, fmt (trusted not to panic below 2 GiB).",
 		trusted: []string{"regexp (RE2) is linear and does not panic; FindString with a ^-anchored pattern returns a prefix of its argument", "bytes.Buffer and fmt.Errorf neither panic nor diverge", "a goroutine stack suffices for recursion depth <= 64 Ki frames"},
 		run:     runC09,
